@@ -18,6 +18,7 @@ RULE = (
     "models with state variables reached by a pre-load), load magnitudes, masks and the parallel flag. Oracle: central "
     "finite differences (h = 1e-6) of the assembled vector w.r.t. ALL unknowns; symmetry for hyperelastic bodies, "
     "constraints and pressure on closed surfaces. Non-trivial: max|F - I| >= 0.05 and >= 2 cells (loads: non-zero)."
+    ' Added after seeded rounds: a u/p law that returns all nv x nu blocks (non-symmetric for alpha != 1), contact walls that touch the body initially, every second single-item case hands the state over in a foreign copy of the container.'
 )
 ASSUMPTIONS = [
     "finite differences resolve relative errors >= 1e-6 of the largest matrix entry",
